@@ -158,7 +158,12 @@ def op_from_decoded(d):
         return out
     path = d['path']
     names = [s[1] for s in path if s[0] == 'symbolic']
-    nums = {s[0]: s[1] for s in path if s[0] in ('class', 'instance', 'attribute')}
+    # cpppo stops resolving once class, instance and attribute are known and ignores what follows
+    # (device.resolve); the first occurrence of each kind is the one that counts
+    nums = {}
+    for sg in path:
+        if sg[0] in ('class', 'instance', 'attribute') and sg[0] not in nums:
+            nums[sg[0]] = sg[1]
     elem = [s[1] for s in path if s[0] == 'element']
     if names:
         ref = ('name', '.'.join(names))
